@@ -11,6 +11,8 @@ CONSTANTS Cycs, Dels, Reps, Defects
 VARIABLES tm, t
 
 RepsQuick == {-1, 0, 1, 2, -2, -3}
+DelsQuick == {-3, -1, 0, 1, 3}          \* "any delay": a negative delay starts the animation before time zero
+DelsThorough == {-9, -3, -1, 0, 1, 2, 3, 7, 40}
 RepsThorough == {-1, 0, 1, 2, 3, 5, -2, -3}
 RepsHuge == {-3, -2, 0}
 
